@@ -1,10 +1,367 @@
-(* C09 — indexing, slicing and len agree for all sequences and indices. *)
+(* C09 — indexing, slicing and len agree for all sequences and indices.
+
+   Model: Model/Seq.v ([at_exec], [len_exec], [slice_exec]; the index
+   arithmetic of the crate slyce as [slyce_indices], CPython's slice semantics
+   as the reference [py_slice]).  Proofs: Lemmas/SeqLemmas.v; every theorem
+   below is [exact lemma].  Sequences are arrays ([VArr t vs]) and strings
+   ([VString s], a list of Unicode scalar values); throughout, the length is
+   n = Z.of_nat (length _), integers are unbounded [Z] (slyce computes in i128,
+   operands are i64), and slice operands are [option_map VInt a] for an
+   arbitrary [a : option Z].  The [Example]s at the end are evaluated by
+   [vm_compute] on concrete 5-element sequences. *)
 From SSL.Model Require Import Base Ty Float Value Seq.
 From SSL.Lemmas Require Import SeqLemmas.
-From Coq Require Import ZArith.
+From Coq Require Import ZArith List.
+Import ListNotations.
 Local Open Scope Z_scope.
+
+(* ---------------------------------------------------------------- len *)
 
 Theorem len_array : forall t vs, len_exec (VArr t vs) = Ok (Z.of_nat (length vs)).
 Proof. exact len_arr. Qed.
 Theorem len_string : forall s, len_exec (VString s) = Ok (Z.of_nat (length s)).
 Proof. exact len_str. Qed.
+
+(* ----------------------------------------------------------- 1. indexing *)
+
+(* for -n <= i < 0, [i mod n] is [n + i] *)
+Theorem neg_index_is_mod : forall n i, -n <= i < 0 -> i mod n = n + i.
+Proof. exact neg_index_mod. Qed.
+
+Theorem at_array_ok : forall t vs i d,
+  - Z.of_nat (length vs) <= i < Z.of_nat (length vs) ->
+  at_exec (VArr t vs) (VInt i)
+  = Ok (nth (Z.to_nat (i mod Z.of_nat (length vs))) vs d).
+Proof. exact at_arr_ok. Qed.
+
+Theorem at_array_oob : forall t vs i,
+  ~ (- Z.of_nat (length vs) <= i < Z.of_nat (length vs)) ->
+  at_exec (VArr t vs) (VInt i) = Err E_IndexOutOfBounds.
+Proof. exact at_arr_oob. Qed.
+
+Theorem at_array_iff : forall t vs i x,
+  at_exec (VArr t vs) (VInt i) = Ok x <->
+  - Z.of_nat (length vs) <= i < Z.of_nat (length vs) /\
+  nth_error vs (Z.to_nat (i mod Z.of_nat (length vs))) = Some x.
+Proof. exact at_arr_iff. Qed.
+
+Theorem at_never_panics : forall t vs i, at_exec (VArr t vs) (VInt i) <> Panic.
+Proof. exact at_arr_no_panic. Qed.
+
+Theorem at_array_neg : forall t vs i,
+  - Z.of_nat (length vs) <= i < 0 ->
+  at_exec (VArr t vs) (VInt i) = at_exec (VArr t vs) (VInt (Z.of_nat (length vs) + i)).
+Proof. exact at_arr_neg. Qed.
+
+Theorem at_string_ok : forall s i d,
+  - Z.of_nat (length s) <= i < Z.of_nat (length s) ->
+  at_exec (VString s) (VInt i)
+  = Ok (VString [nth (Z.to_nat (i mod Z.of_nat (length s))) s d]).
+Proof. exact at_str_ok. Qed.
+
+Theorem at_string_oob : forall s i,
+  ~ (- Z.of_nat (length s) <= i < Z.of_nat (length s)) ->
+  at_exec (VString s) (VInt i) = Err E_IndexOutOfBounds.
+Proof. exact at_str_oob. Qed.
+
+Theorem at_string_iff : forall s i x,
+  at_exec (VString s) (VInt i) = Ok x <->
+  - Z.of_nat (length s) <= i < Z.of_nat (length s) /\
+  exists c, nth_error s (Z.to_nat (i mod Z.of_nat (length s))) = Some c /\
+            x = VString [c].
+Proof. exact at_str_iff. Qed.
+
+Theorem at_string_never_panics : forall s i, at_exec (VString s) (VInt i) <> Panic.
+Proof. exact at_str_no_panic. Qed.
+
+Theorem at_string_neg : forall s i,
+  - Z.of_nat (length s) <= i < 0 ->
+  at_exec (VString s) (VInt i) = at_exec (VString s) (VInt (Z.of_nat (length s) + i)).
+Proof. exact at_str_neg. Qed.
+
+(* -------------------------- 2. the slyce iterator is not cut short by fuel *)
+
+(* In the clamping range the iterator run with the model's fuel [S len] yields
+   exactly the arithmetic progression of CPython's closed-form count. *)
+Theorem slyce_iter_spec : forall len i e st,
+  0 <= len -> st <> 0 ->
+  (0 < st -> 0 <= i <= len /\ 0 <= e <= len) ->
+  (st < 0 -> -1 <= i <= len - 1 /\ -1 <= e <= len - 1) ->
+  slyce_iter (S (Z.to_nat len)) i e st
+  = map (fun k => i + Z.of_nat k * st)
+        (seq 0 (Z.to_nat
+           (if st <? 0 then (if e <? i then (i - e - 1) / (- st) + 1 else 0)
+            else (if i <? e then (e - i - 1) / st + 1 else 0)))).
+Proof. exact slyce_iter_spec_l. Qed.
+
+(* any fuel >= len gives the same list, and at most len indices are produced *)
+Theorem slyce_iter_fuel_enough : forall len i e st fuel,
+  0 <= len -> st <> 0 ->
+  (0 < st -> 0 <= i <= len /\ 0 <= e <= len) ->
+  (st < 0 -> -1 <= i <= len - 1 /\ -1 <= e <= len - 1) ->
+  (Z.to_nat len <= fuel)%nat ->
+  slyce_iter fuel i e st = slyce_iter (S (Z.to_nat len)) i e st.
+Proof. exact slyce_iter_fuel_enough_l. Qed.
+
+Theorem slyce_iter_length_le : forall len i e st,
+  0 <= len -> st <> 0 ->
+  (0 < st -> 0 <= i <= len /\ 0 <= e <= len) ->
+  (st < 0 -> -1 <= i <= len - 1 /\ -1 <= e <= len - 1) ->
+  (length (slyce_iter (S (Z.to_nat len)) i e st) <= Z.to_nat len)%nat.
+Proof. exact slyce_iter_length_le_l. Qed.
+
+(* ------------------------------------------------------ 3. slyce = Python *)
+
+Theorem slyce_eq_python : forall len, 0 <= len -> forall start stop step,
+  slyce_indices len start stop step = py_slice len start stop step.
+Proof. exact slyce_eq_py. Qed.
+
+(* ------------------------- 4. selected indices are valid; slicing is total *)
+
+Theorem slyce_indices_in_range : forall len a b c k,
+  0 <= len -> In k (slyce_indices len a b c) -> 0 <= k < len.
+Proof. exact slyce_indices_in_range_l. Qed.
+
+Theorem py_slice_length_le_len : forall len a b c,
+  0 <= len -> (length (py_slice len a b c) <= Z.to_nat len)%nat.
+Proof. exact py_slice_length_le. Qed.
+
+Theorem select_total : forall (A : Type) (l : list A) idx,
+  (forall k, In k idx -> 0 <= k < Z.of_nat (length l)) ->
+  exists r, select l idx = Some r /\ length r = length idx /\
+            forall j, (j < length idx)%nat ->
+                      nth_error r j = nth_error l (Z.to_nat (nth j idx 0)).
+Proof. exact @select_total_l. Qed.
+
+Theorem select_defined_only_in_range : forall (A : Type) (l : list A) idx r,
+  select l idx = Some r ->
+  forall k, In k idx -> 0 <= k < Z.of_nat (length l).
+Proof. exact @select_some_valid. Qed.
+
+(* array -> array; the elements are those at [py_slice n a b c], in order
+   (this is [slice_total_array] together with [slice_elements]) *)
+Theorem slice_total_array : forall t vs (a b c : option Z),
+  exists r,
+    slice_exec (VArr t vs) (option_map VInt a) (option_map VInt b) (option_map VInt c)
+    = Ok (arr_of r) /\
+    length r = length (py_slice (Z.of_nat (length vs)) a b c) /\
+    forall j, (j < length (py_slice (Z.of_nat (length vs)) a b c))%nat ->
+      nth_error r j
+      = nth_error vs (Z.to_nat (nth j (py_slice (Z.of_nat (length vs)) a b c) 0)).
+Proof. exact slice_arr_total. Qed.
+
+(* string -> string *)
+Theorem slice_total_string : forall s (a b c : option Z),
+  exists r,
+    slice_exec (VString s) (option_map VInt a) (option_map VInt b) (option_map VInt c)
+    = Ok (VString r) /\
+    length r = length (py_slice (Z.of_nat (length s)) a b c) /\
+    forall j, (j < length (py_slice (Z.of_nat (length s)) a b c))%nat ->
+      nth_error r j
+      = nth_error s (Z.to_nat (nth j (py_slice (Z.of_nat (length s)) a b c) 0)).
+Proof. exact slice_str_total. Qed.
+
+(* the same, read from any successful result *)
+Theorem slice_elements : forall t vs a b c w,
+  slice_exec (VArr t vs) (option_map VInt a) (option_map VInt b) (option_map VInt c) = Ok w ->
+  exists r, w = arr_of r /\
+    length r = length (py_slice (Z.of_nat (length vs)) a b c) /\
+    forall j, (j < length (py_slice (Z.of_nat (length vs)) a b c))%nat ->
+      nth_error r j
+      = nth_error vs (Z.to_nat (nth j (py_slice (Z.of_nat (length vs)) a b c) 0)).
+Proof. exact slice_arr_elements. Qed.
+
+Theorem slice_elements_string : forall s a b c w,
+  slice_exec (VString s) (option_map VInt a) (option_map VInt b) (option_map VInt c) = Ok w ->
+  exists r, w = VString r /\
+    length r = length (py_slice (Z.of_nat (length s)) a b c) /\
+    forall j, (j < length (py_slice (Z.of_nat (length s)) a b c))%nat ->
+      nth_error r j
+      = nth_error s (Z.to_nat (nth j (py_slice (Z.of_nat (length s)) a b c) 0)).
+Proof. exact slice_str_elements. Qed.
+
+Theorem slice_array_never_panics : forall t vs a b c,
+  slice_exec (VArr t vs) (option_map VInt a) (option_map VInt b) (option_map VInt c) <> Panic.
+Proof. exact slice_arr_no_panic. Qed.
+
+Theorem slice_string_never_panics : forall s a b c,
+  slice_exec (VString s) (option_map VInt a) (option_map VInt b) (option_map VInt c) <> Panic.
+Proof. exact slice_str_no_panic. Qed.
+
+Theorem slice_array_never_errs : forall t vs a b c e,
+  slice_exec (VArr t vs) (option_map VInt a) (option_map VInt b) (option_map VInt c) <> Err e.
+Proof. exact slice_arr_no_err. Qed.
+
+Theorem slice_string_never_errs : forall s a b c e,
+  slice_exec (VString s) (option_map VInt a) (option_map VInt b) (option_map VInt c) <> Err e.
+Proof. exact slice_str_no_err. Qed.
+
+(* on a sequence, slicing succeeds exactly when every present operand is an int *)
+Theorem slice_ok_iff_int_operands : forall v a b c,
+  (exists t vs, v = VArr t vs) \/ (exists s, v = VString s) ->
+  (exists w, slice_exec v a b c = Ok w) <->
+  (exists a' b' c', a = option_map VInt a' /\ b = option_map VInt b' /\ c = option_map VInt c').
+Proof. exact slice_exec_seq_ok_iff. Qed.
+
+Theorem slice_step_zero_empty : forall t vs a b,
+  slice_exec (VArr t vs) (option_map VInt a) (option_map VInt b) (Some (VInt 0))
+  = Ok (arr_of []).
+Proof. exact slice_arr_step_zero. Qed.
+
+Theorem slice_step_zero_empty_string : forall s a b,
+  slice_exec (VString s) (option_map VInt a) (option_map VInt b) (Some (VInt 0))
+  = Ok (VString []).
+Proof. exact slice_str_step_zero. Qed.
+
+(* -------------------------------------------------- 5. mutual consistency *)
+
+Theorem slice_len_array : forall t vs a b c w,
+  slice_exec (VArr t vs) (option_map VInt a) (option_map VInt b) (option_map VInt c) = Ok w ->
+  len_exec w = Ok (Z.of_nat (length (py_slice (Z.of_nat (length vs)) a b c))).
+Proof. exact slice_arr_len. Qed.
+
+Theorem slice_len_string : forall s a b c w,
+  slice_exec (VString s) (option_map VInt a) (option_map VInt b) (option_map VInt c) = Ok w ->
+  len_exec w = Ok (Z.of_nat (length (py_slice (Z.of_nat (length s)) a b c))).
+Proof. exact slice_str_len. Qed.
+
+Theorem slice_len_le_array : forall t vs a b c w m,
+  slice_exec (VArr t vs) (option_map VInt a) (option_map VInt b) (option_map VInt c) = Ok w ->
+  len_exec w = Ok m -> 0 <= m <= Z.of_nat (length vs).
+Proof. exact slice_arr_len_le. Qed.
+
+Theorem slice_len_le_string : forall s a b c w m,
+  slice_exec (VString s) (option_map VInt a) (option_map VInt b) (option_map VInt c) = Ok w ->
+  len_exec w = Ok m -> 0 <= m <= Z.of_nat (length s).
+Proof. exact slice_str_len_le. Qed.
+
+(* (s[a:b:c])[j] = s[i_j] *)
+Theorem slice_at_array : forall t vs a b c w j,
+  slice_exec (VArr t vs) (option_map VInt a) (option_map VInt b) (option_map VInt c) = Ok w ->
+  0 <= j < Z.of_nat (length (py_slice (Z.of_nat (length vs)) a b c)) ->
+  at_exec w (VInt j)
+  = at_exec (VArr t vs) (VInt (nth (Z.to_nat j) (py_slice (Z.of_nat (length vs)) a b c) 0)).
+Proof. exact slice_arr_at. Qed.
+
+Theorem slice_at_string : forall s a b c w j,
+  slice_exec (VString s) (option_map VInt a) (option_map VInt b) (option_map VInt c) = Ok w ->
+  0 <= j < Z.of_nat (length (py_slice (Z.of_nat (length s)) a b c)) ->
+  at_exec w (VInt j)
+  = at_exec (VString s) (VInt (nth (Z.to_nat j) (py_slice (Z.of_nat (length s)) a b c) 0)).
+Proof. exact slice_str_at. Qed.
+
+(* indexing the slice outside [-m, m), m its len, is IndexOutOfBounds *)
+Theorem slice_at_oob_array : forall t vs a b c w j,
+  slice_exec (VArr t vs) (option_map VInt a) (option_map VInt b) (option_map VInt c) = Ok w ->
+  ~ (- Z.of_nat (length (py_slice (Z.of_nat (length vs)) a b c)) <= j
+     < Z.of_nat (length (py_slice (Z.of_nat (length vs)) a b c))) ->
+  at_exec w (VInt j) = Err E_IndexOutOfBounds.
+Proof. exact slice_arr_at_oob. Qed.
+
+Theorem slice_at_oob_string : forall s a b c w j,
+  slice_exec (VString s) (option_map VInt a) (option_map VInt b) (option_map VInt c) = Ok w ->
+  ~ (- Z.of_nat (length (py_slice (Z.of_nat (length s)) a b c)) <= j
+     < Z.of_nat (length (py_slice (Z.of_nat (length s)) a b c))) ->
+  at_exec w (VInt j) = Err E_IndexOutOfBounds.
+Proof. exact slice_str_at_oob. Qed.
+
+(* the full slice [:] *)
+Theorem py_slice_full_indices : forall n,
+  0 <= n -> py_slice n None None None = map Z.of_nat (seq 0 (Z.to_nat n)).
+Proof. exact py_slice_full. Qed.
+
+Theorem slice_full_array : forall t vs,
+  slice_exec (VArr t vs) None None None = Ok (arr_of vs).
+Proof. exact slice_arr_full. Qed.
+
+Theorem slice_full_string : forall s,
+  slice_exec (VString s) None None None = Ok (VString s).
+Proof. exact slice_str_full. Qed.
+
+(* reversal [::-1] *)
+Theorem py_slice_rev_indices : forall n,
+  0 <= n ->
+  py_slice n None None (Some (-1))
+  = map (fun k => n - 1 - Z.of_nat k) (seq 0 (Z.to_nat n)).
+Proof. exact py_slice_rev. Qed.
+
+Theorem slice_rev_array : forall t vs,
+  slice_exec (VArr t vs) None None (Some (VInt (-1))) = Ok (arr_of (rev vs)).
+Proof. exact slice_arr_rev. Qed.
+
+Theorem slice_rev_string : forall s,
+  slice_exec (VString s) None None (Some (VInt (-1))) = Ok (VString (rev s)).
+Proof. exact slice_str_rev. Qed.
+
+(* -------------------------------------------------------- 6. non-vacuity *)
+
+Definition ex_a5 : value := VArr TInt [VInt 10; VInt 11; VInt 12; VInt 13; VInt 14].
+Definition ex_s5 : value := VString [97; 98; 99; 100; 101].
+Definition ex_min : Z := -9223372036854775808.
+Definition ex_max : Z := 9223372036854775807.
+
+Example ex_at_neg :
+  at_exec ex_a5 (VInt (-1)) = Ok (VInt 14) /\
+  at_exec ex_a5 (VInt (-5)) = Ok (VInt 10) /\
+  at_exec ex_a5 (VInt 4) = Ok (VInt 14) /\
+  at_exec ex_s5 (VInt (-2)) = Ok (VString [100]).
+Proof. repeat split; vm_compute; reflexivity. Qed.
+
+Example ex_at_oob :
+  at_exec ex_a5 (VInt (-6)) = Err E_IndexOutOfBounds /\
+  at_exec ex_a5 (VInt 5) = Err E_IndexOutOfBounds /\
+  at_exec ex_a5 (VInt ex_min) = Err E_IndexOutOfBounds /\
+  at_exec ex_s5 (VInt ex_max) = Err E_IndexOutOfBounds /\
+  at_exec (VArr TNever []) (VInt 0) = Err E_IndexOutOfBounds.
+Proof. repeat split; vm_compute; reflexivity. Qed.
+
+(* the restriction to integer indices / sequences is necessary *)
+Example ex_at_panics :
+  at_exec ex_a5 (VBool true) = Panic /\ at_exec (VInt 3) (VInt 0) = Panic.
+Proof. split; vm_compute; reflexivity. Qed.
+
+Example ex_slice_neg_step_oob_bounds :
+  slice_exec ex_a5 (Some (VInt 100)) (Some (VInt (-100))) (Some (VInt (-2)))
+  = Ok (VArr TInt [VInt 14; VInt 12; VInt 10]) /\
+  py_slice 5 (Some 100) (Some (-100)) (Some (-2)) = [4; 2; 0] /\
+  slyce_indices 5 (Some 100) (Some (-100)) (Some (-2)) = [4; 2; 0].
+Proof. repeat split; vm_compute; reflexivity. Qed.
+
+Example ex_slice_i64_extremes :
+  slice_exec ex_a5 (Some (VInt ex_min)) (Some (VInt ex_max)) (Some (VInt ex_max))
+  = Ok (VArr TInt [VInt 10]) /\
+  slice_exec ex_a5 (Some (VInt ex_max)) (Some (VInt ex_min)) (Some (VInt ex_min))
+  = Ok (VArr TInt [VInt 14]) /\
+  slice_exec ex_a5 (Some (VInt ex_min)) (Some (VInt ex_max)) None = Ok ex_a5 /\
+  slice_exec ex_a5 (Some (VInt ex_max)) (Some (VInt ex_min)) None = Ok (VArr TNever []) /\
+  slice_exec ex_s5 (Some (VInt ex_max)) (Some (VInt ex_min)) (Some (VInt (-1)))
+  = Ok (VString [101; 100; 99; 98; 97]).
+Proof. repeat split; vm_compute; reflexivity. Qed.
+
+Example ex_slice_misc :
+  slice_exec ex_a5 (Some (VInt 1)) (Some (VInt (-1))) None
+  = Ok (VArr TInt [VInt 11; VInt 12; VInt 13]) /\
+  slice_exec ex_a5 None None (Some (VInt 0)) = Ok (VArr TNever []) /\
+  slice_exec ex_s5 (Some (VInt (-2))) None (Some (VInt (-2))) = Ok (VString [100; 98]) /\
+  slice_exec ex_s5 None (Some (VInt 2)) None = Ok (VString [97; 98]).
+Proof. repeat split; vm_compute; reflexivity. Qed.
+
+(* non-integer operands and non-sequences do reach Panic in the model (the
+   checker rejects them statically; S3 is the one hole, see DESIGN) *)
+Example ex_slice_panics :
+  slice_exec ex_a5 (Some (VBool true)) None None = Panic /\
+  slice_exec (VInt 3) None None None = Panic.
+Proof. split; vm_compute; reflexivity. Qed.
+
+(* outside the clamping range the fuel S len *can* cut the raw iterator short,
+   so the range hypotheses of [slyce_iter_spec] are necessary *)
+Example ex_iter_fuel_needed :
+  slyce_iter (S (Z.to_nat 2)) 0 10 1 = [0; 1; 2] /\
+  length (slyce_iter 20 0 10 1) = 10%nat.
+Proof. split; vm_compute; reflexivity. Qed.
+
+(* for a negative length the two index computations differ, so [0 <= len] in
+   [slyce_eq_python] is necessary *)
+Example ex_neg_len_differs :
+  slyce_indices (-3) (Some 0) (Some (-1)) None <> py_slice (-3) (Some 0) (Some (-1)) None.
+Proof. vm_compute. discriminate. Qed.
